@@ -121,9 +121,11 @@ def voxel_stream(ctx, viol):
                 need = minx < 0 or maxx > L
                 reqs.append("vox ranges %s %s %s %d %s" % (rat(minx), rat(maxx), rat(L), 1 if need else 0, sxs)); meta.append(("scan", None, got, (order, c, m, L, sx)))
                 # independent oracle: the atoms (other than the centre) within m of it by minimum image, each once
-                want = sorted(a for a in range(n) if a != c and min(abs(xs[a] - cx), L - abs(xs[a] - cx)) <= m)
+                dmin = {a: min(abs(xs[a] - cx), L - abs(xs[a] - cx)) for a in range(n) if a != c}
+                want = sorted(a for a in dmin if dmin[a] < m - 1e-6)
+                tie = {a for a in dmin if abs(dmin[a] - m) <= 1e-6}        # exactly at the cutoff: the property leaves these open
                 ctx.case(None, ("scan", k)); ctx.count("neighbour scans")
-                if sorted(got) != want:
+                if len(set(got)) != len(got) or not set(want) <= set(got) or not set(got) <= set(want) | tie:
                     viol("voxels|scan|%s" % ("duplicates" if len(set(got)) != len(got) else "set"), "Voxels.getNeighbors for the atom at x=%s (cutoff %s, box %s) over the bin %s returns atoms %s, within the cutoff are %s" % (
                         cx, m, L, sx, got, want), dict(xs=xs, centre=c, cutoff=m, box=L))
         finally:
